@@ -545,7 +545,7 @@ def run_fuzz(fz, fdir, exe, env, runs, seed, res, jobs, workdir):
         os.makedirs(adir)
         log = open(os.path.join(fdir, "log%d" % j), "w")
         cmd = [exe, "-runs=%d" % per, "-seed=%d" % (seed * 1000 + j + 1), "-max_len=%d" % fz.get("max_len", 600),
-               "-artifact_prefix=" + adir + "/", "-print_final_stats=1", "-timeout=60", cdir]
+               "-artifact_prefix=" + adir + "/", "-print_final_stats=1", "-timeout=60", "-use_value_profile=1", cdir]
         procs.append((subprocess.Popen(cmd, stdout=log, stderr=subprocess.STDOUT, env=env), log, j))
     execs = cov = ft = 0
     crashes = []
